@@ -185,6 +185,30 @@ def run(index, tier="quick", seed=0) -> Result:
                 res.ok("AX-1", k, sample={"component": k, "expr": str(item.sym)})
             else:
                 res.bad("AX-1", k, cname, f"{k} = {item.sym} does not have the axis signature V*(sum of the two other squared semi-axes)")
+    # ------------------------------------------------------------ CANCEL-1  sums of squared semi-axes are formed by adding
+    # the terms that belong to them; forming the total and subtracting the unwanted square, (a^2 + b^2 + c^2) - a^2, is the same
+    # polynomial but loses b^2 + c^2 to rounding when a dominates (needle limit: relative error eps * a^2 / (b^2 + c^2))
+    ncan = 0
+    for cname in CURVED:
+        cls_ = index.cls(cname)
+        for member in ("inertia_tensor", "planar_moments_inertia", "polar_moment_inertia", "area", "volume", "surface_area", "perimeter", "iq", "eccentricity"):
+            p_ = index.effective_prop(cls_, member)
+            if p_ is None or p_.getter is None:
+                continue
+            _v, r_ = getter_val(index, cname, member)
+            ncan += 1
+            hits = [e for e in r_["events"] if e.type == "self-cancel" and e.func is not None and e.func.module.name.startswith("coxeter.shapes")
+                    and all(all(a_.startswith("self._") for (a_, _e) in m_) for m_ in e.monomials)]
+            k = f"{cname}.{member}"
+            if hits:
+                e = hits[0]
+                res.bad("CANCEL-1", k + ":total-minus-term", e.where(), f"{k}: `{e.src()[:60]}` forms a sum of squared semi-axes and subtracts one of its own terms "
+                        f"({' ; '.join(str(e.right.sym) for e in hits[:3])}): algebraically the remaining terms, numerically their value is lost to rounding when the "
+                        "subtracted axis dominates (needle-like shapes inside the supported 1e-3..1e3 range)")
+            else:
+                res.ok("CANCEL-1", k, nontrivial=False)
+    if ncan < 20:
+        raise AnalysisError(f"CANCEL-1: only {ncan} curved-class measures examined")
     # ------------------------------------------------------------ IQ-1
     for cname, base in (("Circle", "Shape2D"), ("Sphere", "Shape3D")):
         v, _ = getter_val(index, cname, "iq")
